@@ -51,6 +51,8 @@ pub struct Logical {
     pub decoys: bool,
     /// header carrier: leave the date header (X-Amz-Date or Date) out of the signed-header list
     pub unsigned_date: bool,
+    /// sign with this 32-byte key instead of the key derived from `secret` (the provider script is separate)
+    pub raw_key: Option<Vec<u8>>,
 }
 
 /// How the wire request spells the logical one.
@@ -326,6 +328,7 @@ pub fn random_logical(rng: &mut Rng) -> Logical {
         scope_date_override: None,
         decoys: rng.chance(1, 4),
         unsigned_date: false,
+        raw_key: None,
     }
 }
 
@@ -488,7 +491,7 @@ pub fn sign_and_spell(l: &Logical, rng: &mut Rng, sp: &Spelling, now: (i64, u32)
     }
     let scope = format!("{}/{}/{}/aws4_request", scope_date, l.region, l.service);
     let sts = rs::string_to_sign(&compact, &scope, &creq);
-    let key = rs::signing_key(l.secret.as_bytes(), &true_date, &l.region, &l.service);
+    let key = l.raw_key.clone().unwrap_or_else(|| rs::signing_key(l.secret.as_bytes(), &true_date, &l.region, &l.service));
     let signature = rs::sign(&key, &sts);
 
     // --- wire spelling
@@ -499,10 +502,15 @@ pub fn sign_and_spell(l: &Logical, rng: &mut Rng, sp: &Spelling, now: (i64, u32)
     for s in &segs {
         wire_path.push(b'/');
         if sp.path_noise && !l.s3 {
-            match rng.below(4) {
+            match rng.below(9) {
                 0 => wire_path.extend_from_slice(b"/"),
                 1 => wire_path.extend_from_slice(b"./"),
                 2 => wire_path.extend_from_slice(b"%2E/"),
+                // a segment that a following '..' (in any spelling, also behind redundant slashes) removes again
+                3 => wire_path.extend_from_slice(b"zz/../"),
+                4 => wire_path.extend_from_slice(b"zz//../"),
+                5 => wire_path.extend_from_slice(b"zz/./%2e%2E/"),
+                6 => wire_path.extend_from_slice(b"y/zz///.%2E/../"),
                 _ => {}
             }
         }
@@ -510,6 +518,12 @@ pub fn sign_and_spell(l: &Logical, rng: &mut Rng, sp: &Spelling, now: (i64, u32)
     }
     if l.trailing_slash && !segs.is_empty() {
         wire_path.push(b'/');
+        if sp.path_noise && !l.s3 && rng.chance(1, 2) {
+            wire_path.extend_from_slice(*rng.pick(&[&b"./"[..], b"/", b".//", b"zz/../"]));
+        }
+    } else if sp.path_noise && !l.s3 && !segs.is_empty() && rng.chance(1, 2) {
+        // dot segments at the very end leave no trailing slash behind
+        wire_path.extend_from_slice(*rng.pick(&[&b"/."[..], b"//.", b"/./.", b"///.", b"/zz/..", b"//zz//.."]));
     }
     let mut wire_pairs = l.query.clone();
     wire_pairs.extend(auth_pairs.iter().cloned());
